@@ -18,6 +18,7 @@ import random
 import shutil
 import sys
 import tempfile
+import time
 from pathlib import Path
 
 import falcon
@@ -84,6 +85,75 @@ def _is_import_noise(rp):
                  os.path.dirname(os.__file__)}
         _NOISE_ROOTS = tuple(os.path.realpath(r) + os.sep for r in roots)
     return rp.startswith(_NOISE_ROOTS) and rp.endswith(('.py', '.pyc', '.so', '.pth', '.typed'))
+
+
+# ---------------------------------------------------------------------------- server-side options
+
+class FdFileWrapper:
+    """PEP 3333 'optional platform-specific file handling' the way sendfile-style servers do it:
+    when the object handed to wsgi.file_wrapper has a usable fileno(), the descriptor is
+    transmitted from its current position until the end is reached, read() is never called;
+    otherwise the wrapper falls back to iterating with read(blksize)."""
+
+    def __init__(self, filelike, blksize=8192):
+        self.filelike = filelike
+        self.blksize = blksize
+        self.fd = None
+        try:
+            fd = filelike.fileno()
+            if isinstance(fd, int) and fd >= 0:
+                self.fd = fd
+        except Exception:  # noqa  (AttributeError, io.UnsupportedOperation, ValueError: not a real file)
+            self.fd = None
+        if hasattr(filelike, 'close'):
+            self.close = filelike.close
+
+    def __iter__(self):
+        return self
+
+    def __next__(self):
+        data = os.read(self.fd, self.blksize) if self.fd is not None else self.filelike.read(self.blksize)
+        if data:
+            return data
+        raise StopIteration
+
+
+class OddFileWrapper:
+    """read()-based wrapper that treats blksize as the mere suggestion PEP 3333 says it is."""
+    SIZES = (1, 3, 5000, 2, 8192, 7)
+
+    def __init__(self, filelike, blksize=8192):
+        self.filelike = filelike
+        self.i = 0
+        if hasattr(filelike, 'close'):
+            self.close = filelike.close
+
+    def __iter__(self):
+        return self
+
+    def __next__(self):
+        n = self.SIZES[self.i % len(self.SIZES)]
+        self.i += 1
+        data = self.filelike.read(n)
+        if data:
+            return data
+        raise StopIteration
+
+
+# value of case['fwrap'] -> what the server puts into environ['wsgi.file_wrapper']
+FWRAPS = {False: None, True: W.FileWrapper, 'fd': FdFileWrapper, 'odd': OddFileWrapper}
+FWRAP_KEYS = [False, True, 'fd', 'odd']
+
+# process time zones (POSIX TZ strings, no tz database needed): UTC, east, west, half-hour, DST rules, +14
+TZS = ['UTC', 'JST-9', 'EST5', 'IST-5:30', 'NST3:30', 'CET-1CEST,M3.5.0,M10.5.0/3', 'LINT-14', 'PST8PDT,M3.2.0,M11.1.0']
+_TZ = [None]
+
+
+def set_tz(tz):
+    if tz is not None and _TZ[0] != tz:
+        os.environ['TZ'] = tz
+        time.tzset()
+        _TZ[0] = tz
 
 
 # ---------------------------------------------------------------------------- the world
@@ -192,18 +262,31 @@ class World:
             ('subonly', '/subonly', J(srv, 'sub'), {'fallback_filename': 'inner.txt'}, J(srv, 'sub'),
              J(srv, 'sub', 'inner.txt')),
         ]
-        self.routes = {'main': [], 'root': []}
-        self.wsgi = {'main': falcon.App(), 'root': falcon.App()}
-        self.asgi = {'main': falcon.asgi.App(), 'root': falcon.asgi.App()}
-        for name, prefix, directory, kw, mdir, mfb in spec:
+        self.routes = {'main': [], 'root': [], 'strip': []}
+        self.wsgi = {'main': falcon.App(), 'root': falcon.App(), 'strip': falcon.App()}
+        self.asgi = {'main': falcon.asgi.App(), 'root': falcon.asgi.App(), 'strip': falcon.asgi.App()}
+        for app in (self.wsgi['strip'], self.asgi['strip']):
+            app.req_options.strip_url_path_trailing_slash = True
+        for i, (name, prefix, directory, kw, mdir, mfb) in enumerate(spec):
+            if i == 4:
+                # the remaining routes are registered on apps that have already served requests
+                for fw in ('wsgi', 'asgi'):
+                    for tail in ('a.txt', 'nest/a.txt', 'nope'):
+                        execute(self, {'fw': fw, 'app': 'main', 'method': 'GET', 'raw_path': '/static/' + tail,
+                                       'headers': [], 'fwrap': False})
             self.wsgi['main'].add_static_route(prefix, directory, **kw)
             self.asgi['main'].add_static_route(prefix, directory, **kw)
             self.routes['main'].append(M.Route(name, prefix, mdir, mfb, kw.get('downloadable', False)))
         self.wsgi['root'].add_static_route('/', srv)
         self.asgi['root'].add_static_route('/', srv)
         self.routes['root'].append(M.Route('rootapp', '/', srv, None, False))
-        self.by_name = {r.name: ('main', r) for r in self.routes['main']}
-        self.by_name['rootapp'] = ('root', self.routes['root'][0])
+        # same directory behind an app that strips one trailing slash from the path (request option)
+        for name, prefix, kw, mfb in (('sstatic', '/static', {}, None),
+                                      ('sfb', '/fb/', {'fallback_filename': 'index.html'}, J(srv, 'index.html'))):
+            self.wsgi['strip'].add_static_route(prefix, srv, **kw)
+            self.asgi['strip'].add_static_route(prefix, srv, **kw)
+            self.routes['strip'].append(M.Route(name, prefix, srv, mfb, False))
+        self.by_name = {r.name: (a, r) for a in self.routes for r in self.routes[a]}
 
 
 # ---------------------------------------------------------------------------- one request
@@ -220,8 +303,12 @@ def execute(world, case):
     raw = case['raw_path'].replace(ROOT_TOKEN, world.root).encode('utf-8')
     headers = [tuple(h) for h in case.get('headers', [])]
     au = audit()
+    set_tz(case.get('tz'))
     if case['fw'] == 'wsgi':
-        env = W.make_environ(case['method'], raw, '', headers=headers, file_wrapper=case.get('fwrap', False))
+        env = W.make_environ(case['method'], raw, '', headers=headers, file_wrapper=False)
+        wrapper = FWRAPS[case.get('fwrap', False)]
+        if wrapper is not None:
+            env['wsgi.file_wrapper'] = wrapper
         au.arm()
         try:
             res = W.run_wsgi(world.wsgi[case['app']], env)
@@ -254,8 +341,13 @@ def judge(rec, world, case, raw, res, opens):
 
     method = case['method']
     path = M.decoded_path(raw)
+    if case['app'] == 'strip' and len(path) != 1 and path.endswith('/'):
+        path = path[:-1]            # documented effect of req_options.strip_url_path_trailing_slash
     route = M.select(world.routes[case['app']], path)
     rec.count('fw.' + case['fw'])
+    if case['fw'] == 'wsgi':
+        rec.count('fwrap.%s' % case.get('fwrap', False))
+    rec.count('tz.' + str(_TZ[0]))
 
     # ---- file-open monitor
     rec.count('mon.audit_requests')
@@ -458,7 +550,7 @@ def _rel(world, p):
 
 def nontrivial_key(case):
     return (case['fw'], case['app'], case['method'], case['raw_path'], tuple(map(tuple, case.get('headers', []))),
-            case.get('fwrap', False))
+            case.get('fwrap', False), case.get('tz'))
 
 
 def run_case(rec, world, case):
@@ -490,16 +582,16 @@ def seg_alphabet(world):
             'x.bin', 'X']
 
 
-ROUTE_PAIRS = [('static', 'fb'), ('dl', 'fbabs'), ('p', 'subonly'), ('rootapp', 'nest')]
+ROUTE_PAIRS = [('static', 'fb'), ('dl', 'fbabs'), ('p', 'subonly'), ('rootapp', 'nest'), ('sstatic', 'sfb')]
 PREFIX = {'static': '/static/', 'dl': '/dl/', 'fb': '/fb/', 'fbabs': '/fbabs/v1/', 'nest': '/static/nest/',
-          'p': '/p/', 'subonly': '/subonly/', 'rootapp': '/'}
+          'p': '/p/', 'subonly': '/subonly/', 'rootapp': '/', 'sstatic': '/static/', 'sfb': '/fb/'}
 
 
 def mk(world, route_name, tail, fw, method='GET', headers=(), fwrap=False):
     app, _ = world.by_name[route_name]
     raw = (PREFIX[route_name] + tail).replace(world.root, ROOT_TOKEN)
     return {'fw': fw, 'app': app, 'method': method, 'raw_path': raw, 'headers': [list(h) for h in headers],
-            'fwrap': fwrap}
+            'fwrap': fwrap, 'tz': _TZ[0]}
 
 
 def exhaustive_paths(rec, world):
@@ -536,6 +628,11 @@ def targeted_paths(world):
     # bare prefixes of fallback routes are answered by the fallback
     for p in ['/fb', '/fb/', '/subonly', '/subonly/', '/static/', '/dl/', '/static/nest', '/static/nest/']:
         out.append(('main', p))
+    # an app that strips a trailing slash before routing
+    for p in ['/static', '/static/', '/static//', '/fb', '/fb/', '/fb//', '/static/sub/', '/fb/sub/', '/static/a.txt/',
+              '/fb/a.txt/', '/fb/missing/', '/static/../', '/fb/../', '/static/sub/../', '/fb/sub/..//', '/static/..%2f',
+              '/fbx/', '/staticX/', '/static/a.txt//', '/static/f5/.', '/fb/.', '/static/\\/', '/', '/fb/%2f']:
+        out.append(('strip', p))
     outside_rel = [os.path.relpath(f, world.srv) for f in world.outside]      # '../a.txt', '../srv-secret/s.txt', ...
     for rn, pre in PREFIX.items():
         app = world.by_name[rn][0]
@@ -589,6 +686,9 @@ RANGE_MALFORMED = ['bytes', 'bytes=', 'bytes=-', 'bytes=--1', 'bytes=0--1', 'byt
 RANGE_OTHER_UNITS = ['items=0-1', 'seconds=1-2', 'none=0-0', 'x-y=1-', 'bytess=0-1', 'byte=0-1']
 
 
+WSGI_ASGI_VARIANTS = [('wsgi', k) for k in FWRAP_KEYS] + [('asgi', False)]
+
+
 def range_cases(rec, world):
     """Bounded-exhaustive range arithmetic: every (size, first, last) and suffix length."""
     smax = 6 if rec.tier == 'quick' else 8
@@ -602,7 +702,7 @@ def range_cases(rec, world):
     idx = 0
     for s in range(0, smax + 1):
         for v in vals + RANGE_MALFORMED + RANGE_OTHER_UNITS:
-            for fw, fwrap in (('wsgi', False), ('wsgi', True), ('asgi', False)):
+            for fw, fwrap in WSGI_ASGI_VARIANTS:
                 idx += 1
                 if idx % rec.nshards != rec.shard:
                     continue
@@ -614,7 +714,7 @@ def range_cases(rec, world):
     edges = [0, 1, 8191, 8192, 8193, 16383, 16384, 16385, 19998, 19999, 20000, 20001]
     for a in edges:
         for b in edges + [None]:
-            for fw, fwrap in (('wsgi', False), ('wsgi', True), ('asgi', False)):
+            for fw, fwrap in WSGI_ASGI_VARIANTS:
                 idx += 1
                 if idx % rec.nshards != rec.shard:
                     continue
@@ -622,24 +722,34 @@ def range_cases(rec, world):
                 run_case(rec, world, mk(world, 'static', 'big.bin', fw, 'GET', [('Range', v)], fwrap))
                 rec.count('exh.range_big')
     for n in edges:
-        for fw in ('wsgi', 'asgi'):
+        for fw, fwrap in WSGI_ASGI_VARIANTS:
             idx += 1
             if idx % rec.nshards != rec.shard:
                 continue
-            run_case(rec, world, mk(world, 'static', 'big.bin', fw, 'GET', [('Range', 'bytes=-%d' % n)]))
+            run_case(rec, world, mk(world, 'static', 'big.bin', fw, 'GET', [('Range', 'bytes=-%d' % n)], fwrap))
+    # whole files (no Range) through every server-side variant, every size
+    for name in ['f%d' % k for k in range(9)] + ['big.bin', 'a.txt', 'missing.txt']:
+        for rn in ('static', 'fb', 'dl', 'sfb'):
+            for method in ('GET', 'HEAD'):
+                for fw, fwrap in WSGI_ASGI_VARIANTS:
+                    idx += 1
+                    if idx % rec.nshards != rec.shard:
+                        continue
+                    run_case(rec, world, mk(world, rn, name, fw, method, [], fwrap))
     # fallback file served for a missing name, with ranges
     for v in ['bytes=0-0', 'bytes=-1', 'bytes=5-', 'bytes=999-', 'bytes=0-999']:
         for rn in ('fb', 'fbabs', 'subonly'):
-            for fw in ('wsgi', 'asgi'):
+            for fw, fwrap in WSGI_ASGI_VARIANTS:
                 idx += 1
                 if idx % rec.nshards != rec.shard:
                     continue
-                run_case(rec, world, mk(world, rn, 'missing.txt', fw, 'GET', [('Range', v)]))
+                run_case(rec, world, mk(world, rn, 'missing.txt', fw, 'GET', [('Range', v)], fwrap))
 
 
 def ims_values(mtime):
     t = int(mtime // 1)
-    vals = [M.imf_fixdate(t + d) for d in (-86400, -2, -1, 0, 1, 2, 86400)]
+    vals = [M.imf_fixdate(t + d) for d in (-86400, -43200, -7200, -3600, -1800, -2, -1, 0, 1, 2, 1800, 3600, 7200, 43200,
+                                           86400)]
     import time as _t
     g = _t.gmtime(t)
     vals += [
@@ -652,19 +762,35 @@ def ims_values(mtime):
 
 
 def ims_cases(rec, world):
-    idx = 0
-    names = ['a.txt', 'b.css', 'f0', 'f5', 'sub/inner.txt', 'big.bin', 'noext', 'missing.txt']
+    """The whole table in this shard's time zone, a reduced table in every other process time zone
+    (the zone is switched between requests with time.tzset())."""
+    home = _TZ[0]
+    _ims_table(rec, world, ['a.txt', 'b.css', 'f0', 'f5', 'sub/inner.txt', 'big.bin', 'noext', 'missing.txt'],
+               ('static', 'fb', 'dl'), 0)
+    for k, tz in enumerate(TZS):
+        if tz == home:
+            continue
+        set_tz(tz)
+        _ims_table(rec, world, ['a.txt', 'f5', 'missing.txt'], ('static', 'fb', 'sfb'), k + 1, strict_only=True)
+    set_tz(home)
+
+
+def _ims_table(rec, world, names, route_names, salt, strict_only=False):
+    idx = salt
     for name in names:
-        for rn in ('static', 'fb', 'dl'):
+        for rn in route_names:
             route = world.by_name[rn][1]
             f = os.path.join(route.directory, name)
             ent = world.files.get(f) or (world.files[route.fallback] if route.fallback else None)
             mt = ent[1] if ent else 1_600_000_000
-            for v in ims_values(mt):
+            values = ims_values(mt)
+            variants = (('GET', []), ('HEAD', []), ('GET', [('Range', 'bytes=1-2')]), ('GET', [('Range', 'bytes=99999-')]),
+                        ('GET', [('Range', 'bytes=x')]), ('POST', []))
+            if strict_only:
+                values, variants = values[:15], variants[:3]
+            for v in values:
                 for fw in ('wsgi', 'asgi'):
-                    for method, extra in (('GET', []), ('HEAD', []), ('GET', [('Range', 'bytes=1-2')]),
-                                          ('GET', [('Range', 'bytes=99999-')]), ('GET', [('Range', 'bytes=x')]),
-                                          ('POST', [])):
+                    for method, extra in variants:
                         idx += 1
                         if idx % rec.nshards != rec.shard:
                             continue
@@ -750,7 +876,7 @@ def random_headers(rng, world, mtime_hint):
             hs.append(('Range', rng.choice(RANGE_MALFORMED)))
         else:
             hs.append(('Range', rng.choice(RANGE_OTHER_UNITS)))
-    if rng.random() < 0.15:
+    if rng.random() < 0.2:
         hs.append(('If-Modified-Since', rng.choice(ims_values(mtime_hint))))
     return hs
 
@@ -766,6 +892,7 @@ def random_phase(rec, world):
     while rounds < min_rounds or rec.budget_ok(0.85):
         rounds += 1
         canary(rec, world)
+        set_tz(rng.choice(TZS))          # the process is reconfigured between requests
         for _ in range(200):
             rn = rng.choice(names)
             tail = random_tail(rng, world, inside_rel, outside_rel)
@@ -776,7 +903,7 @@ def random_phase(rec, world):
             hs = random_headers(rng, world, guess[1] if guess else 1_600_003_600)
             method = rng.choice(['GET'] * 16 + ['HEAD', 'HEAD', 'OPTIONS', 'POST'])
             fw = rng.choice(['wsgi', 'asgi'])
-            case = mk(world, rn, tail, fw, method, hs, fwrap=rng.random() < 0.5)
+            case = mk(world, rn, tail, fw, method, hs, fwrap=rng.choice(FWRAP_KEYS))
             if rng.random() < 0.03:          # spoil the prefix itself
                 case['raw_path'] = case['raw_path'][:len(PREFIX[rn]) - 1] + rng.choice(['', 'x', '-secret/', '%2f', '\\', '//']) + \
                     case['raw_path'][len(PREFIX[rn]):]
@@ -806,11 +933,11 @@ def gen_episode(rng):
             k = rng.random()
             if k < 0.4:
                 hs.append(['Range', rng.choice(['bytes=0-', 'bytes=1-3', 'bytes=-4', 'bytes=4-', 'bytes=9-', 'bytes=0-0',
-                                                 'bytes=8190-8200', 'bytes=-8193'])])
+                                                 'bytes=8190-8200', 'bytes=-8193', 'bytes=0-3', 'bytes=2-5', 'bytes=1-1'])])
             elif k < 0.6:
-                hs.append(['If-Modified-Since', M.imf_fixdate(t + rng.choice([-1, 0, 1]))])
-            steps.append(['req', rng.choice(['static', 'dl', 'fb', 'p', 'rootapp']), name, rng.choice(['wsgi', 'asgi']),
-                          rng.choice(['GET', 'GET', 'GET', 'HEAD']), hs, rng.random() < 0.5])
+                hs.append(['If-Modified-Since', M.imf_fixdate(t + rng.choice([-3600, -1, 0, 1, 3600]))])
+            steps.append(['req', rng.choice(['static', 'dl', 'fb', 'p', 'rootapp', 'sstatic']), name, rng.choice(['wsgi', 'asgi']),
+                          rng.choice(['GET', 'GET', 'GET', 'HEAD']), hs, rng.choice(FWRAP_KEYS)])
     return steps
 
 
@@ -825,6 +952,7 @@ def episode(rec, world, steps):
             _, rn, name, fw, method, hs, fwrap = st
             case = mk(world, rn, name, fw, method, hs, fwrap)
             case['episode'] = [list(s) for s in steps]     # the whole episode: replay is self-contained
+            case['episode_tz'] = _TZ[0]
             run_case(rec, world, case)
             rec.count('episode.requests')
 
@@ -863,7 +991,9 @@ def fd_diagnostic(rec, world):
 
 def run(rec):
     rec.rule = ('one case = one HTTP request (framework, method, raw request path, Range / If-Modified-Since, '
-                'file_wrapper on/off) against real falcon.App / falcon.asgi.App objects with 8 static routes over a '
+                'wsgi.file_wrapper absent / read()-based / descriptor-based (sendfile style) / odd block sizes, process '
+                'time zone) against real falcon.App / falcon.asgi.App objects with 10 static routes (3 apps, one with '
+                'strip_url_path_trailing_slash, some routes registered after the app served requests) over a '
                 'scratch tree of known bytes; paths: all sequences of <= L segments over a 21-symbol traversal alphabet '
                 '(sharded), a targeted list (near-miss prefixes, absolute-path injection, every outside file through '
                 '27 traversal spellings, every inside file in 3 encodings), random mutations of file names; ranges: '
@@ -881,9 +1011,13 @@ def run(rec):
         'Range values that are not a single RFC-valid "bytes=" range (malformed, several ranges, last < first, '
         '"-0", other unit case) and If-Modified-Since values that are not a consistent IMF-fixdate only have to '
         'produce a self-consistent answer (400, whole file, or a 206/416 whose headers match the body)',
+        'a wsgi.file_wrapper may transmit from the descriptor of an object that offers fileno(), from its current '
+        'position to the end of the file (PEP 3333, optional platform-specific file handling)',
+        'the process time zone is a configuration of the server (POSIX TZ, changed with time.tzset())',
         'library imports (.py/.pyc/.so under the interpreter, falcon or framework directories) are not counted as '
         'opens made by the route',
     ]
+    set_tz(TZS[(rec.shard + rec.seed) % len(TZS)])
     world = World(tree_seed=(rec.seed * 1009 + rec.shard + 1) if rec.tier != 'quick' or rec.shard % 2 else 0)
     try:
         warmup(world)
@@ -899,7 +1033,8 @@ def run(rec):
             if i % rec.nshards != rec.shard:
                 continue
             for fw in ('wsgi', 'asgi'):
-                run_case(rec, world, {'fw': fw, 'app': app, 'method': 'GET', 'raw_path': p, 'headers': [], 'fwrap': False})
+                run_case(rec, world, {'fw': fw, 'app': app, 'method': 'GET', 'raw_path': p, 'headers': [], 'fwrap': False,
+                                      'tz': _TZ[0]})
             rec.count('exh.targeted')
         range_cases(rec, world)
         ims_cases(rec, world)
@@ -920,7 +1055,9 @@ def run(rec):
                     ('fw.wsgi', 8000), ('fw.asgi', 8000), ('exh.range', 1500), ('exh.range_big', 100), ('exh.ims', 500),
                     ('exh.targeted', 500), ('rand.requests', 400 if q else 2000), ('episode.requests', 16),
                     ('route.static', 500), ('route.dl', 500), ('route.fb', 500), ('route.fbabs', 500), ('route.nest', 200),
-                    ('route.p', 500), ('route.subonly', 500), ('route.rootapp', 500)]:
+                    ('route.p', 500), ('route.subonly', 500), ('route.rootapp', 500), ('route.sstatic', 500),
+                    ('route.sfb', 500), ('fwrap.False', 2000), ('fwrap.True', 500), ('fwrap.fd', 500), ('fwrap.odd', 500)] + \
+            [('tz.' + z, 300) for z in TZS]:
         rec.floor(name, n)
 
 
@@ -930,9 +1067,10 @@ def replay(rec, w):
     try:
         warmup(world)
         canary(rec, world)
-        case = {k: wit[k] for k in ('fw', 'app', 'method', 'raw_path', 'headers', 'fwrap') if k in wit}
+        case = {k: wit[k] for k in ('fw', 'app', 'method', 'raw_path', 'headers', 'fwrap', 'tz') if k in wit}
         case.setdefault('headers', [])
         if wit.get('episode'):
+            set_tz(wit.get('episode_tz'))
             episode(rec, world, wit['episode'])
         else:
             out, res = run_case(rec, world, case)
